@@ -84,8 +84,11 @@ func runText(sum *vh.Summary, cw *vh.CaseWriter, kind, text string, verbose bool
 	return true
 }
 
+var opts *vh.Opts
+
 func main() {
 	o := vh.ParseOpts()
+	opts = o
 	r := vh.NewRng(o.Seed)
 	sum := vh.NewSummary("C08", o,
 		"generated JSON values (serialised by the generator with random escapes, whitespace and numeric forms) and generated XML documents (namespaces, attributes, mixed content, CDATA, entities, comments, PIs) read with target \".\"; "+
@@ -109,6 +112,16 @@ func main() {
 			os.Exit(2)
 		}
 		sum.Count(rp.Case.Kind+":"+rp.Case.Text, true)
+		if o.Corpus != "" {
+			files, _ := filepath.Glob(filepath.Join(o.Corpus, "*.json"))
+			for _, f := range files {
+				var cc corpusCase
+				if b, err := os.ReadFile(f); err == nil && json.Unmarshal(b, &cc) == nil &&
+					cc.Expect == "known-finding" && cc.Kind == rp.Case.Kind && cc.Text == rp.Case.Text {
+					strictPrefix = true
+				}
+			}
+		}
 		failed := runText(sum, cw, rp.Case.Kind, rp.Case.Text, true)
 		fmt.Println("replay: property oracle on the implementation failed =", failed)
 		for _, f := range sum.Failures {
@@ -139,8 +152,9 @@ func main() {
 			// expect = "hypothesis": an input outside a theorem's hypothesis (e.g. duplicate keys);
 			// the model is compared with the implementation, the property oracle is not evaluated
 			skipOracle = cc.Expect == "hypothesis"
+			strictPrefix = cc.Expect == "known-finding"
 			failed := runText(sum, cw, cc.Kind, cc.Text, false)
-			skipOracle = false
+			skipOracle, strictPrefix = false, false
 			if cc.Expect == "known-finding" {
 				if failed {
 					fmt.Printf("corpus %s: still fails (known finding), key=%s\n", filepath.Base(f),
@@ -151,6 +165,11 @@ func main() {
 			}
 		}
 	}
+
+	// ---- fixed parts of every run: boundary numbers, very large single records ----
+	boundaryDocs(sum, cw)
+	bigDocs(r, sum, cw)
+	bigXMLDocs(r, sum, cw)
 
 	total := o.Count(3000, 60000)
 	for c := 0; c < total; c++ {
